@@ -122,6 +122,12 @@ def check_expm(ctx, A, v, dt, m, kd_h, hermitian, style=None):
             _, Qref = kr.krylov_residuals(A, v0, min(m, n) + 1, basis=True)
             kq = min(m, Qref.shape[1] + 1)
             tol_x = max(tol_x, 1e-14 * kr.basis_condition(A, v0, Qref, kq) * max(1.0, abs(dt) * nA))
+        if hermitian:
+            # amplification: rounding of relative size eps in the Ritz weights is multiplied by the largest factor |exp(dt lambda)| of the exponential
+            # (1 for imaginary and for decaying steps on a semi-definite spectrum, up to 1e12 when a weakly populated direction is amplified)
+            _lam = np.linalg.eigvalsh((A + A.conj().T) / 2)
+            _amp = float(np.exp(min(700.0, float(np.max(np.real(dt) * _lam)))))
+            tol_x = tol_x + 1e3 * np.finfo(float).eps * _amp * nv / max(np.linalg.norm(exact), nv)
         ctx.close(f'{tag}.exact-when-exhausted', np.linalg.norm(r - exact) / max(np.linalg.norm(exact), nv), tol_x,
                   f'm={m} >= Krylov dimension {kd_h} but result != expm(dt A) v', detail)
 
@@ -202,6 +208,25 @@ def grid_case(ctx, idx, rng):
         ctx.case(('hermitian', 'semi-definite-long-real-step', 'decaying' if sgn < 0 else 'decaying-negative-spectrum', 'm>n' if m > n else ('m=n' if m == n else 'm<n'),
                   'exhausted' if m >= kd_s else 'not-exhausted', 'complex' if cplx else 'real'), sample={'n': n, 'm': m, 'A': Apsd, 'v': v, 'dt': dts})
         check_expm(ctx, Apsd, v, dts, m, kd_s, hermitian=True)
+    if idx % 6 == 4 and n >= 3:
+        # a WEAKLY POPULATED direction that the step amplifies to order one: start vector with amplitude 1e-9 .. 1e-12 on the eigenvector of the single negative
+        # eigenvalue -1 (all others in [0.2, 1]), step -tau with tau = ln(1 / amplitude) + 0..3: exp(dt A) v is dominated by the component that was invisible in v
+        Qh = np.linalg.qr(rng.normal(size=(n, n)) + (1j * rng.normal(size=(n, n)) if cplx else 0))[0]
+        lam_ = np.concatenate([[-1.0], rng.uniform(0.2, 1.0, size=n - 1)])
+        Aw = (Qh * lam_) @ Qh.conj().T
+        Aw = (Aw + Aw.conj().T) / 2
+        amp_ = float(rng.choice([1e-9, 1e-10, 1e-12]))
+        cw = rng.normal(size=n) + (1j * rng.normal(size=n) if cplx else 0)
+        cw[0] = amp_
+        vw = Qh @ cw
+        dtw = -(float(np.log(1 / amp_)) + float(rng.uniform(0, 3))) + (0.8j if idx % 12 == 4 else 0)
+        res_w = kr.krylov_residuals(Aw, vw, m + 1)
+        kd_w = kr.krylov_dim(res_w)
+        if any(1e-8 <= r <= 1e-5 for r in res_w[:m]):
+            kd_w = 10**9
+        ctx.case(('hermitian', 'weakly-populated-direction-amplified', 'm>n' if m > n else ('m=n' if m == n else 'm<n'), 'exhausted' if m >= kd_w else 'not-exhausted',
+                  'complex' if cplx else 'real'), sample={'n': n, 'm': m, 'A': Aw, 'v': vw, 'dt': dtw, 'amplitude': amp_})
+        check_expm(ctx, Aw, vw, dtw, m, kd_w, hermitian=True)
     # non-normal matrix for the general branch: generic, or defective / highly non-normal (Jordan blocks, ladder operators), where an
     # eigen-decomposition of the projected matrix is ill-conditioned or impossible
     gk = ('generic', 'jordan', 'ladder', 'triangular-degenerate')[(idx // 5) % 4]
